@@ -256,18 +256,25 @@ def replay_split(w):
     T1 = common.reference_temperature('linear', layers, specs, 0)
     T2 = np.full(layers, float(np.mean(T1)) + 3.0)
     for method in ('dense', 'sparse'):
-      e1 = common.make_primitive(g, sig, T1, cls='dry', specs=specs, vertical_matmul_method=method)
-      e2 = common.make_primitive(g, sig, T2, cls='dry', specs=specs, vertical_matmul_method=method)
-      sp = tendency.primitive_space(e1, 'real', tracers=('q',))
-      s1 = tendency.primitive_state(sp, jnp.asarray(rng.randn(sp.n) * sp.scale * 0.3), with_time=False)
-      tv = s1.temperature_variation.at[:, 0, 0].add(jnp.asarray((T1 - T2) * SQRT4PI))
-      s2 = type(s1)(s1.vorticity, s1.divergence, tv, s1.log_surface_pressure, s1.tracers)
-      t1 = tendency.primitive_leaves(_total(e1)(s1))
-      t2 = tendency.primitive_leaves(_total(e2)(s2))
-      diffs = {k: float(jnp.abs(t1[k] - t2[k]).max()) for k in t1}
-      ref = max(float(jnp.abs(v).max()) for v in t1.values())
-      if max(diffs.values()) > 1e-9 * max(1.0, ref):
-        msgs.append(f'{layers} uneven layers, matmul={method}, profiles {np.round(T1, 3).tolist()} vs {np.round(T2, 3).tolist()}: max |total tendency difference| per field {diffs} (largest tendency {ref:.3e})')
+      for cls in ('dry', 'moist'):
+        moist = cls == 'moist'
+        e1 = common.make_primitive(g, sig, T1, cls=cls, specs=specs, vertical_matmul_method=method)
+        e2 = common.make_primitive(g, sig, T2, cls=cls, specs=specs, vertical_matmul_method=method)
+        sp = tendency.primitive_space(e1, 'real', tracers=('specific_humidity',) if moist else ('q',))
+        s1 = tendency.primitive_state(sp, jnp.asarray(rng.randn(sp.n) * sp.scale * 0.3), with_time=moist)
+        tr = dict(s1.tracers)
+        if moist:
+          tr['specific_humidity'] = tr['specific_humidity'].at[:, 0, 0].add(0.01 * SQRT4PI)
+        tv = s1.temperature_variation.at[:, 0, 0].add(jnp.asarray((T1 - T2) * SQRT4PI))
+        rest = ((s1.sim_time,) if moist else ())
+        s1 = type(s1)(s1.vorticity, s1.divergence, s1.temperature_variation, s1.log_surface_pressure, *rest, tr)
+        s2 = type(s1)(s1.vorticity, s1.divergence, tv, s1.log_surface_pressure, *rest, tr)
+        t1 = tendency.primitive_leaves(_total(e1)(s1))
+        t2 = tendency.primitive_leaves(_total(e2)(s2))
+        diffs = {k: float(jnp.abs(t1[k] - t2[k]).max()) for k in t1 if k != 'sim_time'}
+        ref = max(float(jnp.abs(v).max()) for v in t1.values())
+        if max(diffs.values()) > 1e-9 * max(1.0, ref):
+          msgs.append(f'{cls}, {layers} uneven layers, matmul={method}, profiles {np.round(T1, 3).tolist()} vs {np.round(T2, 3).tolist()}: max |total tendency difference| per field {diffs} (largest tendency {ref:.3e})')
   return bool(msgs), ('; '.join(msgs[:3]) if msgs else 'explicit + implicit tendencies agree for the sampled profile pairs')
 
 
@@ -296,7 +303,7 @@ def _deductive():
 
 MANIFEST = {
     'engine': 'pyvc+jxa',
-    'technique': ('contract-based deductive: the temperature equation of a column (vertical advection + adiabatic + implicit term) proved independent of the reference profile for every '
+    'technique': ('contract-based deductive: the temperature equation of a column (vertical advection + adiabatic + implicit term) proved independent of the reference profile, for the dry and for the moist (virtual-temperature) class, for every '
                   'number of layers from the real source (pyvc column / matrix mode: ghost prefix sums, induction lemmas, case-split ring normal form + z3); polynomial degree of explicit+implicit '
                   'proved on the jaxpr and the whole identity decided on the unisolvent degree-3 lattice of the admissible subspace per configuration; moist sampled'),
     'text': ('other: complete over admissible states at each configuration (degree proved statically, lattice unisolvent), bounded over profile pairs, '
